@@ -1,4 +1,5 @@
 import FstVerif.Proofs.Open
+import FstVerif.Proofs.Glue
 /-
 C20 — opening and verifying untrusted bytes is total. Statements only; proofs
 in Proofs/Open.lean. The "no unsafe" clause is a compiler audit run by ./check
@@ -28,5 +29,15 @@ theorem C20_verify_outcome (bs : List UInt8) (m : Meta) (hm : fstNew (Src.ofList
 /-- the metadata accessors are field reads of the `Meta` record returned by a successful open: total -/
 theorem C20_short_is_error (bs : List UInt8) (h : bs.length < 32) :
     fstNew (Src.ofList bs) = .err (.format bs.length) := OpenProofs.C10_short bs h
+
+
+/-! ### `map_data` (Fst / Map / Set): the closure's bytes are opened afresh -/
+
+theorem C20_map_data_total (f : Src → Src) (d : Src) (bs : List UInt8) (h : f d = Src.ofList bs) :
+    ∀ tag, mapData f d ≠ .panic tag := Glue.mapData_total f d bs h
+
+/-- nothing of the old bytes' header survives -/
+theorem C20_map_data_forgets (b d d' : Src) : mapData (fun _ => b) d = mapData (fun _ => b) d' :=
+  Glue.mapData_forgets b d d'
 
 end Fst.Props
